@@ -5,6 +5,7 @@ import HG.Model.TypeCompat
 import HG.Model.Cache
 import HG.Model.Sem
 import HG.Model.Events
+import HG.Model.Viz
 /-! Line protocol driver: one JSON request per line on stdin, one JSON response per line on stdout.
 Evaluates the model's own definitions; malformed requests yield `{"bad": reason}` (never a default). -/
 open Lean HG Driver
@@ -148,6 +149,35 @@ def handle (j : Json) : P Json := do
       | _ => throw "bad sem event") (← field j "events")
     let r := Sem.replayDetail k (.par (List.replicate n .leaf)) evs
     pure (Json.mkObj [("ok", .bool r.ok), ("max", .num (JsonNumber.fromNat r.maxInflight)), ("allDone", .bool r.allDone)])
+  | "viz" =>
+    -- translation validation of real diagram data by the proved checker
+    let optStr (x : Json) : P (Option String) := match x with | .null => pure none | v => do pure (some (← str v))
+    let fnodes ← list (fun o => do
+      pure ({ id := ← str (← field o "id"), parent := ← optStr (fieldD o "parent" .null), kind := ← str (← field o "kind"),
+              inputs := ← list str (fieldD o "inputs" (.arr #[])), outputs := ← list str (fieldD o "outputs" (.arr #[])),
+              waitFor := ← list str (fieldD o "waitFor" (.arr #[])), targets := ← list str (fieldD o "targets" (.arr #[])),
+              hidden := ← bool (fieldD o "hidden" (.bool false)) } : Viz.FNode)) (← field j "flat")
+    let f : Viz.Flat := ⟨fnodes⟩
+    let checks ← list (fun c => do
+      let st ← list (fun p => do
+        let a ← arr p
+        match a.toList with
+        | [k, v] => pure ((← str k), (← bool v))
+        | _ => throw "bad state entry") (← field c "state")
+      let sep ← bool (← field c "sep")
+      let dn ← list (fun o => do
+        pure ({ id := ← str (← field o "id"), kind := ← str (← field o "kind"), parent := ← optStr (fieldD o "parent" .null),
+                hidden := ← bool (fieldD o "hidden" (.bool false)), owner := ← optStr (fieldD o "owner" .null) } : Viz.DNode)) (← field c "nodes")
+      let de ← list (fun o => do
+        pure ({ source := ← str (← field o "source"), target := ← str (← field o "target"), kind := ← str (fieldD o "kind" (.str "data")),
+                value := ← optStr (fieldD o "value" .null) } : Viz.DEdge)) (← field c "edges")
+      pure (st, sep, ({ nodes := dn, edges := de } : Viz.Diagram))) (← field j "checks")
+    pure (Json.mkObj [
+      ("deps", .arr ((Viz.deps f).map fun d => Json.str (Viz.showDep d)).toArray),
+      ("validStates", .arr ((Viz.validStates f).map fun st => Json.arr (st.map fun kv => Json.arr #[.str kv.1, .bool kv.2]).toArray).toArray),
+      ("results", .arr (checks.map fun (st, sep, d) => Json.mkObj [
+        ("ok", .bool (Viz.checkFaithful f st sep d)),
+        ("explain", .arr ((Viz.explain f st sep d).map Json.str).toArray)]).toArray)])
   | "rename" =>
     -- rename bookkeeping: original names, optional constructor batch, successive call batches
     let orig ← list str (← field j "orig")
